@@ -74,7 +74,7 @@ def make_items(ctx, only=None):
             it['argv'] = ['abidiff', '--no-default-suppression'] + ABIDIFF_OPTS[o] + [a, b]
         else:
             idx = int(n[2:])
-            it['wl'] = K.gen_workload(C.Prng(C.mix_seed(ctx.seed, 14, 7, idx)), big=(idx % 3 == 2))
+            it['wl'] = K.gen_workload(C.Prng(C.mix_seed(ctx.seed, 14, 7, idx)), big=(idx % 3 == 2), swarm=True)
             it['wl']['format'] = 'dir' if idx % 4 else 'tar'
         ref = run_item(ctx, it, {'k': 0, 'layout_seed': C.mix_seed(ctx.seed, 14, 1, 0)})
         if ref[0].klass[0] != 'exit':
